@@ -31,6 +31,8 @@ class Spec:
     trusted = []
     assumptions = []
     explanation = ""
+    carry = ()      # names of cheap prover groups (props/specs.py: CARRIERS) whose tasks are added to this check so that
+    #                 the callee contracts its own tasks apply are proved inside the same check
 
     def tasks(self, root, tier):
         return []
@@ -140,6 +142,16 @@ def run_check(spec, tier="quick", root="/repo", seed=0):
         report["undecided"].append({"name": "extraction", "reason": "tables/extraction: %s" % e})
     report["records"].extend(trecs)
     tasks = spec.tasks(root, tier)
+    carried = set()
+    if spec.carry:
+        from props import specs as _specs
+        have = {getattr(t, "name", None) for t in tasks}
+        for grp in spec.carry:
+            for t in _specs.CARRIERS[grp](root, tier):
+                if t.name not in have:
+                    have.add(t.name)
+                    carried.add(t.name)
+                    tasks.append(t)
     results = driver.run_tasks(tasks, root) if tasks else []
     functions = {}
     solver_time = 0.0
@@ -160,7 +172,7 @@ def run_check(spec, tier="quick", root="/repo", seed=0):
             decide_undischarged(spec, known, report, r, fake, root)
             continue
         for ob in r["obligations"]:
-            if not spec.select(ob, r):
+            if not (spec.select(ob, r) or (r["task"] in carried and ob["kind"] in ("F", "S", "P", "L", "X") and "/F/structure" not in ob["name"])):
                 continue
             rec = dict(ob)
             rec["task"] = r["task"]
@@ -180,7 +192,8 @@ def run_check(spec, tier="quick", root="/repo", seed=0):
         base = {"tree": repo.tree_hash() if repo else None, "tasks": {}}
         for r in results:
             base["tasks"][r["task"]] = {"dep": r.get("dep"), "status": r["status"],
-                                        "discharged": sorted(ob["name"] for ob in r.get("obligations", []) if ob["status"] == "discharged" and spec.select(ob, r))}
+                                        "discharged": sorted(ob["name"] for ob in r.get("obligations", []) if ob["status"] == "discharged" and
+                                                             (spec.select(ob, r) or r["task"] in carried))}
         os.makedirs(BASELINE_DIR, exist_ok=True)
         with open(os.path.join(BASELINE_DIR, "%s.json" % pid), "w") as f:
             json.dump(base, f, indent=0, sort_keys=True)
